@@ -73,8 +73,7 @@ def run(ctx):
                 self.moves.append((fkey[0].split('::')[-1], args[1][1]))
 
         def subscript(self, ai, e, ext, idx, st):
-            if any(a is self.fn for a in ancestors(e)):
-                self.subs.append((e, ext, idx))
+            self.subs.append((e, ext, idx))        # in the function itself or in a helper followed from it
     for key, fname_ in (('forw', 'cctz::detail::next_weekday'), ('back', 'cctz::detail::prev_weekday')):
         d, tv = T[key]
         k_ = ctx.G.one(fname_)
@@ -86,7 +85,8 @@ def run(ctx):
             for w in range(7):
                 o = _W(f)
                 ai = AI(ctx.G, o, assume_returns={'cctz::detail::get_weekday': I(b)}, unroll=lambda f_: True, unroll_cap=40,
-                        inline=lambda k__: False)
+                        inline=lambda k__: k__[0].split('::')[-1] not in ('operator+', 'operator-', 'operator+=', 'operator-=',
+                                                                             'operator++', 'operator--', 'civil_time'))
                 st = St()
                 st.refs[ps[0]['id']] = ('CD',)
                 st.mem[(ps[1]['id'],)] = I(w)
